@@ -85,7 +85,7 @@ fn write_subword_fn<W: Write>(
             local matched_prefix="${{word:0:$char_index}}"
             local -A state_commands=${{command_transitions[$subword_state]}}
             for cmd_id in "${{!state_commands[@]}}"; do
-                readarray -t subword_candidates < <(_{command}_cmd_$cmd_id "$subword" "$matched_prefix" | while read -r f1 _; do echo "$f1"; done)
+                readarray -t subword_candidates < <(_{command}_cmd_$cmd_id "$subword" "$matched_prefix" | while IFS=$'\t' read -r f1 _; do printf '%s\n' "$f1"; done)
                 if [[ ${{#subword_candidates[@]}} -gt 0 ]]; then
                     indexes=($(
                         for i in "${{!subword_candidates[@]}}"; do
@@ -180,7 +180,7 @@ fn write_subword_fn<W: Write>(
         eval "local commands_name=commands_level_${{subword_fallback_level}}"
         eval "local -a transitions=(\${{$commands_name[$subword_state]}})"
         for command_id in "${{transitions[@]}}"; do
-            readarray -t subword_candidates < <(_{command}_cmd_$command_id "$completed_prefix" "$matched_prefix" | while read -r f1 _; do echo "$f1"; done)
+            readarray -t subword_candidates < <(_{command}_cmd_$command_id "$completed_prefix" "$matched_prefix" | while IFS=$'\t' read -r f1 _; do printf '%s\n' "$f1"; done)
             local -a filtered_candidates=()
             {MATCH_FN_NAME} "$completed_prefix" subword_candidates filtered_candidates
             for item in "${{filtered_candidates[@]}}"; do
@@ -573,7 +573,7 @@ fi
         if [[ -v "command_transitions[$state]" ]]; then
             local -A state_commands=${{command_transitions[$state]}}
             for cmd_id in "${{!state_commands[@]}}"; do
-                readarray -t candidates < <(_{command}_cmd_$cmd_id "" "" | while read -r f1 _; do echo "$f1"; done)
+                readarray -t candidates < <(_{command}_cmd_$cmd_id "" "" | while IFS=$'\t' read -r f1 _; do printf '%s\n' "$f1"; done)
                 if [[ ${{#candidates[@]}} -gt 0 ]]; then
                     indexes=($(
                         for i in "${{!candidates[@]}}" ; do
@@ -729,7 +729,7 @@ fi
         eval "local commands_name=commands_level_${{fallback_level}}"
         eval "local -a transitions=(\${{$commands_name[$state]}})"
         for command_id in "${{transitions[@]}}"; do
-            readarray -t candidates < <(_{command}_cmd_$command_id "$prefix" "" | while read -r f1 _; do echo "$f1"; done)
+            readarray -t candidates < <(_{command}_cmd_$command_id "$prefix" "" | while IFS=$'\t' read -r f1 _; do printf '%s\n' "$f1"; done)
             if [[ ${{#candidates[@]}} -gt 0 ]]; then
                 {MATCH_FN_NAME} "$prefix" candidates matches
             fi
